@@ -591,13 +591,23 @@ impl Scenario for ArithProg {
                         let diff = (&p - &qc).to_full().to_bytes();
                         let dbl = p.double().to_bytes();
                         let dblp = p.double_partial().to_bytes();
-                        (sum, diff, dbl, dblp)
+                        // the same through the by-value operator, the partial representations and their conversions
+                        let diffv = (p.clone() - qc.clone()).to_partial().to_bytes();
+                        let part = p.clone().to_partial();
+                        let partb = part.to_bytes();
+                        let dblf = part.double_full().to_bytes();
+                        let dblpp = part.double().to_bytes();
+                        (sum, diff, dbl, dblp, diffv, partb, dblf, dblpp)
                     })
-                    .map(|(s, d, db, dp)| {
+                    .map(|(s, d, db, dp, dv, pb, df, dpp)| {
                         obs.out(&s);
                         obs.out(&d);
                         obs.out(&db);
                         obs.out(&dp);
+                        obs.out(&dv);
+                        obs.out(&pb);
+                        obs.out(&df);
+                        obs.out(&dpp);
                     })
                 }
                 A_GE_DECODE => {
